@@ -9,6 +9,14 @@
 # 2. CORRESPONDENCE: the Coq model (extracted) predicts, byte for byte, Unmarshal's verdict, Marshal's output, Detach,
 #    ContentInfo.Bytes, AuthenticatedAttributesBytes, the builder's output and the stamped output.
 # 3. The theorems of coq/C16/Properties.v (ctx.proof_verdict).
+# 4. WHICH BYTES ARE DIGESTED (drv c16sv): tokens whose signed attributes are written in unusual layouts and signed over
+#    different encodings go through the real Verify / pkcs9.Verify / TimestampAndMarshal.  Model-free oracle (this file): a
+#    strict verifier from RFC 5652 5.4-5.6 with its own RSA (PKCS#1 v1.5) and ECDSA (P-256) arithmetic: whatever relic
+#    accepts must carry a signature that is valid over the digest of the [0] field AS EMITTED (first octet 0x31) — or of the
+#    content when there are no signed attributes — and a message-digest attribute equal to the content digest; whatever is
+#    valid in that sense and parseable must be accepted; whatever TimestampAndMarshal emits must embed a token that is valid
+#    in that sense.  Correspondence: the interpreted model of SignerInfo.Verify / pkcs9.Verify (C16/VModel.v) over digest and
+#    signature tables computed here.
 import hashlib, json
 from vlib.common import Hex
 
@@ -143,6 +151,220 @@ def der_len(n):
 
 def tlv(tag, body):
     return bytes([tag]) + der_len(len(body)) + body
+
+
+# ------------------------------------------------------------------ own public-key arithmetic (verification only)
+DIGESTINFO = {"sha1": bytes.fromhex("3021300906052b0e03021a05000414"), "sha256": bytes.fromhex("3031300d060960864801650304020105000420"),
+              "sha384": bytes.fromhex("3041300d060960864801650304020205000430"), "sha512": bytes.fromhex("3051300d060960864801650304020305000440")}
+HASH_IDS = {"sha1": 1, "sha256": 2, "sha384": 3, "sha512": 4}
+OID_RSA = bytes.fromhex("2a864886f70d010101")
+OID_EC = bytes.fromhex("2a8648ce3d0201")
+OID_P256 = bytes.fromhex("2a8648ce3d030107")
+
+
+def rsa_verify(n, e, hname, digest, sig, with_digestinfo=True):
+    """EMSA-PKCS1-v1_5; without DigestInfo the padded value is the bare digest (what rsa.VerifyPKCS1v15(hash=0) checks)"""
+    k = (n.bit_length() + 7) // 8
+    if len(sig) != k or int.from_bytes(sig, "big") >= n:
+        return False
+    em = pow(int.from_bytes(sig, "big"), e, n).to_bytes(k, "big")
+    t = (DIGESTINFO[hname] + digest) if with_digestinfo else digest
+    if len(t) + 11 > k:
+        return False
+    return em == b"\x00\x01" + b"\xff" * (k - len(t) - 3) + b"\x00" + t
+
+
+P256_P = 0xffffffff00000001000000000000000000000000ffffffffffffffffffffffff
+P256_B = 0x5ac635d8aa3a93e7b3ebbd55769886bc651d06b0cc53b0f63bce3c3e27d2604b
+P256_N = 0xffffffff00000000ffffffffffffffffbce6faada7179e84f3b9cac2fc632551
+P256_G = (0x6b17d1f2e12c4247f8bce6e563a440f277037d812deb33a0f4a13945d898c296, 0x4fe342e2fe1a7f9b8ee7eb4a7c0f9e162bce33576b315ececbb6406837bf51f5)
+
+
+def _ec_add(a, b):
+    p = P256_P
+    if a is None:
+        return b
+    if b is None:
+        return a
+    if a[0] == b[0]:
+        if (a[1] + b[1]) % p == 0:
+            return None
+        lam = (3 * a[0] * a[0] - 3) * pow(2 * a[1], -1, p) % p
+    else:
+        lam = (b[1] - a[1]) * pow(b[0] - a[0], -1, p) % p
+    x = (lam * lam - a[0] - b[0]) % p
+    return (x, (lam * (a[0] - x) - a[1]) % p)
+
+
+def _ec_mul(k, pt):
+    r = None
+    while k:
+        if k & 1:
+            r = _ec_add(r, pt)
+        pt = _ec_add(pt, pt)
+        k >>= 1
+    return r
+
+
+def ecdsa_verify(q, digest, sig):
+    try:
+        t, s0, e0 = read_one(sig, 0, len(sig))
+        k = kids(sig, s0, e0)
+        if t != 0x30 or e0 != len(sig) or len(k) != 2 or k[0][0] != 2 or k[1][0] != 2:
+            return False
+        r = int.from_bytes(sig[k[0][2]:k[0][3]], "big", signed=True)
+        s = int.from_bytes(sig[k[1][2]:k[1][3]], "big", signed=True)
+    except DerError:
+        return False
+    n = P256_N
+    if not (0 < r < n and 0 < s < n):
+        return False
+    x, y = q
+    if (y * y - (x * x * x - 3 * x + P256_B)) % P256_P != 0:
+        return False
+    e = int.from_bytes(digest[:32], "big")
+    w = pow(s, -1, n)
+    pt = _ec_add(_ec_mul(e * w % n, P256_G), _ec_mul(r * w % n, q))
+    return pt is not None and pt[0] % n == r
+
+
+def cert_facts(der):
+    """(issuer element, serial contents octets, key) of a certificate; key = ("rsa", n, e) | ("ec", (x, y)) | None"""
+    t, s, e = read_one(der, 0, len(der))
+    tbs = kids(der, s, e)[0]
+    f = kids(der, tbs[2], tbs[3])
+    i = 1 if f[0][0] == 0xa0 else 0
+    serial = der[f[i][2]:f[i][3]]
+    issuer = der[f[i + 2][1]:f[i + 2][3]]
+    spki = kids(der, f[i + 5][2], f[i + 5][3])
+    alg = kids(der, spki[0][2], spki[0][3])
+    oid = der[alg[0][2]:alg[0][3]]
+    bits = der[spki[1][2] + 1:spki[1][3]]
+    key = None
+    if oid == OID_RSA:
+        t2, s2, e2 = read_one(bits, 0, len(bits))
+        ne = kids(bits, s2, e2)
+        key = ("rsa", int.from_bytes(bits[ne[0][2]:ne[0][3]], "big"), int.from_bytes(bits[ne[1][2]:ne[1][3]], "big"))
+    elif oid == OID_EC and len(alg) == 2 and der[alg[1][2]:alg[1][3]] == OID_P256 and len(bits) == 65 and bits[0] == 4:
+        key = ("ec", (int.from_bytes(bits[1:33], "big"), int.from_bytes(bits[33:], "big")))
+    return issuer, serial, key
+
+
+def sig_codes(key, hname, digest, sig):
+    """(code of the check with DigestInfo, code of the check without): 0 accepted, 1 rsa.ErrVerification, 2 other error"""
+    if key is None or hname is None:
+        return 2, 2
+    if key[0] == "rsa":
+        return (0 if rsa_verify(key[1], key[2], hname, digest, sig, True) else 1), (0 if rsa_verify(key[1], key[2], hname, digest, sig, False) else 1)
+    ok = ecdsa_verify(key[1], digest, sig)
+    return (0 if ok else 2), (0 if ok else 2)
+
+
+# ------------------------------------------------------------------ strict verification of the first SignerInfo (RFC 5652 5.4 - 5.6)
+def kids_prefix(b, start, end):
+    """the complete elements at the front of b[start:end] and whether they fill it"""
+    out, off = [], start
+    while off < end:
+        try:
+            tag, bs, be = read_one(b, off, end)
+        except DerError:
+            return out, False
+        out.append((tag, off, bs, be))
+        off = be
+    return out, True
+
+
+def si_layout(si):
+    """version, sid, digestAlgorithm, [signedAttrs], signatureAlgorithm, signature of one SignerInfo element.  Whatever
+    follows the signature value inside the SEQUENCE is ignored the way encoding/asn1 ignores it ('complete' tells)"""
+    t, s, e = read_one(si, 0, len(si))
+    k, complete = kids_prefix(si, s, e)
+    if t != 0x30 or e != len(si) or len(k) < 5:
+        raise DerError("SignerInfo shape")
+    sid = kids(si, k[1][2], k[1][3])
+    if k[1][0] != 0x30 or len(sid) != 2 or sid[1][0] != 0x02:
+        raise DerError("issuerAndSerialNumber shape")
+    da = kids(si, k[2][2], k[2][3])
+    field = None
+    j = 3
+    if k[3][0] == 0xa0:
+        field = si[k[3][1]:k[3][3]]
+        j = 4
+    if len(k) < j + 2 or k[j + 1][0] != 0x04:
+        raise DerError("signature shape")
+    complete = complete and (len(k) == j + 2 or (len(k) == j + 3 and k[j + 2][0] == 0xa1))
+    return {"complete": complete, "issuer": si[sid[0][1]:sid[0][3]], "serial": si[sid[1][2]:sid[1][3]], "dalg": si[da[0][2]:da[0][3]],
+            "field": field, "field_body": (k[3][2], k[3][3]) if field is not None else None, "sig": si[k[j + 1][2]:k[j + 1][3]]}
+
+
+def lenient_attrs(si, lay):
+    """(oid, [values]) of every attribute of the signed attributes; trailing elements inside an Attribute are tolerated the
+    way encoding/asn1 tolerates them (the PREIMAGE never depends on this reading)"""
+    out = []
+    if lay["field"] is None:
+        return out
+    for (t, o, s2, e2) in kids(si, lay["field_body"][0], lay["field_body"][1]):
+        ak = kids(si, s2, e2)
+        if t != 0x30 or len(ak) < 2 or ak[0][0] != 0x06:
+            raise DerError("Attribute shape")
+        try:
+            vals = [si[vo:ve] for (_, vo, _, ve) in kids(si, ak[1][2], ak[1][3])]
+        except DerError:
+            vals = None      # a value set that is not DER inside (opaque to Unmarshal; only GetOne decodes one)
+        out.append((si[ak[0][2]:ak[0][3]], vals))
+    return out
+
+
+def strict_verify(x):
+    """decides from the bytes alone; None when x is not a walkable SignedData with at least one SignerInfo"""
+    try:
+        r = regions(x)
+        if not r["sis"]:
+            return None
+        # first SignerInfo in EMITTED order (regions() sorts them)
+        top = kids(x, 0, len(x))
+        ci = kids(x, top[0][2], top[0][3])
+        w = kids(x, ci[1][2], ci[1][3])
+        sd = kids(x, w[0][2], w[0][3])
+        sis = kids(x, sd[-1][2], sd[-1][3])
+        si = x[sis[0][1]:sis[0][3]]
+        lay = si_layout(si)
+        attrs = lenient_attrs(si, lay)
+    except (DerError, IndexError):
+        return None
+    hname = HASH_OIDS.get(lay["dalg"].hex())
+    content = r["econtent"] if r["econtent"] is not None else b""
+    signer, pubid = None, 0
+    certs = []
+    for n, cd in enumerate(c for c in r["certs"]):
+        try:
+            iss, ser, key = cert_facts(cd)
+        except (DerError, IndexError):
+            continue
+        certs.append((iss, ser, n + 1, key))
+        if signer is None and iss == lay["issuer"] and ser == lay["serial"]:
+            signer, pubid = key, n + 1
+    field = lay["field"]
+    if field is not None:
+        pre = b"\x31" + field[1:]
+    else:
+        pre = content
+    res = {"si": si, "lay": lay, "strict": lay["complete"], "hname": hname, "content": content, "certs": certs, "signer": signer, "pubid": pubid,
+           "field": field, "field_empty": field is not None and lay["field_body"][0] == lay["field_body"][1], "preimage": pre,
+           "attrs": attrs, "sig_ok": False, "sig_style": "", "md_ok": True, "md_count": 0}
+    if hname and signer:
+        d = hashlib.new(hname, pre).digest()
+        a, b = sig_codes(signer, hname, d, lay["sig"])
+        res["sig_ok"] = a == 0 or b == 0
+        res["sig_style"] = "digestinfo" if a == 0 else ("bare-digest" if b == 0 else "")
+    if field is not None:
+        mds = [vals for (o, vals) in attrs if o == OID_MD]
+        res["md_count"] = len(mds)
+        want = tlv(0x04, hashlib.new(hname, content).digest()) if hname else None
+        # lenient on multiplicity (the property text speaks of what relic PRODUCES): some message-digest attribute carries
+        # exactly the digest of the content
+        res["md_ok"] = any(v == [want] for v in mds)
+    return res
 
 
 # ------------------------------------------------------------------ oracle on one round trip
@@ -338,6 +560,235 @@ def find_embedded(st):
     return None
 
 
+# ------------------------------------------------------------------ oracle on one signed-bytes case
+SV_ENTRIES = (("sd_verify", "SignedData.Verify"), ("si_verify", "SignerInfo.Verify"), ("si_skip", "SignerInfo.Verify(skipDigests)"),
+              ("ts_verify", "pkcs9.Verify"), ("tam", "pkcs9.TimestampAndMarshal"))
+
+
+def sv_accepted(c, k):
+    return c.get(k) == ("emitted" if k == "tam" else "ok")
+
+
+def oracle_sv(ctx, c, stats):
+    if c.get("panic"):
+        ctx.violation("C16:panic:verify", "verification panicked: %s" % c["panic"], {"cases": [c]})
+        return None
+    x = bytes.fromhex(c["x"])
+    label = "%s/%s layout=%s signed-over=%s md=%s" % (c["key"], c["hash"], c["layout"], c["signed"], c["md"])
+    st = strict_verify(x)
+    acc = [name for k, name in SV_ENTRIES if sv_accepted(c, k)]
+    if c["parse"]:
+        stats["sv_refused_at_parse"] += 1
+        if acc:
+            ctx.violation("C16:verify:accepts-unparsed", "accepted although Unmarshal failed (%s) [%s]" % (", ".join(acc), label), {"cases": [c]})
+        return st
+    if st is None:
+        stats["sv_not_walkable"] += 1
+        return None
+    stats["sv_decided"] += 1
+    has_attrs = st["field"] is not None and not st["field_empty"]
+    # R1: what relic accepts is signed over the bytes as emitted (a check that skips digests and finds no signed attributes
+    #     checks no signature at all: documented, not counted)
+    acc_sig = [name for k, name in SV_ENTRIES if sv_accepted(c, k) and not (k == "si_skip" and not has_attrs)]
+    if acc_sig and not st["sig_ok"]:
+        if st["field_empty"]:
+            ctx.violation("C16:verify:empty-signed-attrs" + ("" if st["strict"] else ":incomplete-signer-info"),
+                          "a SignerInfo with an EMPTY signedAttrs field (A0 00)%s whose signature is over the content digest is accepted by %s; "
+                          "the digest of the emitted encoding (31 00) was never checked and no RFC 5652 verifier accepts it [%s]"
+                          % ("" if st["strict"] else " and a truncated element behind the signature value", ", ".join(acc_sig), label),
+                          {"cases": [c]})
+        else:
+            ctx.violation("C16:verify:accepts-other-encoding",
+                          "%s accepted a SignerInfo whose signature is NOT valid over the signed attributes as emitted (0x31 + field[1:]) [%s]"
+                          % (", ".join(acc_sig), label), {"cases": [c], "preimage_as_emitted": st["preimage"].hex()})
+        return st
+    acc_md = [name for k, name in SV_ENTRIES if sv_accepted(c, k) and k != "si_skip"]
+    if acc_md and has_attrs and not st["md_ok"]:
+        ctx.violation("C16:verify:message-digest-not-checked",
+                      "%s accepted although no message-digest attribute equals the digest of the content [%s]" % (", ".join(acc_md), label), {"cases": [c]})
+        return st
+    if acc_md and st["md_count"] > 1:
+        stats["sv_lax_duplicate_message_digest_accepted"] += 1
+    # AuthenticatedAttributesBytes = emitted field with first octet 0x31
+    if has_attrs and c["aab"] != (b"\x31" + st["field"][1:]).hex() and (acc or not c["aab"].startswith("error")):
+        ctx.violation("C16:attr-digest-preimage", "AuthenticatedAttributesBytes differs from the emitted [0] field with tag 0x31 [%s]" % label, {"cases": [c]})
+        return st
+    # R2: a signature over the as-emitted bytes verifies
+    valid = st["sig_ok"] and st["md_ok"] and st["hname"] and (has_attrs or st["field"] is None) and st["strict"]
+    if valid:
+        stats["sv_valid"] += 1
+        rej = [name for k, name in SV_ENTRIES if not sv_accepted(c, k)]
+        if rej:
+            ctx.violation("C16:verify:rejects-valid", "%s refused a token that is valid over its bytes as emitted (%s) [%s]"
+                          % (", ".join(rej), "; ".join("%s: %s" % (k, c.get(k)) for k, _ in SV_ENTRIES if not sv_accepted(c, k)), label), {"cases": [c]})
+            return st
+    else:
+        stats["sv_invalid"] += 1
+    # R3: whatever TimestampAndMarshal emits embeds a token that is valid over ITS bytes as emitted
+    if sv_accepted(c, "tam"):
+        try:
+            emb = find_embedded(bytes.fromhex(c["tam_out"]))
+        except (DerError, IndexError):
+            emb = None
+        se = strict_verify(emb) if emb else None
+        if se is None or not se["sig_ok"] or (se["field"] is not None and not se["field_empty"] and not se["md_ok"]):
+            ctx.violation("C16:stamp:embeds-invalid-token", "TimestampAndMarshal emitted a signature whose embedded token does not verify over its emitted bytes [%s]" % label, {"cases": [c]})
+            return st
+        if regions(emb)["sis"] != regions(x)["sis"]:
+            ctx.violation("C16:stamp:region:sis", "embedded timestamp token differs from the TSA's token in its SignerInfo [%s]" % label, {"cases": [c]})
+            return st
+        stats["tokens_embedded"] += 1
+    if (c["expect"] == "accept") != bool(valid):
+        stats["sv_generator_expectation_differs"] += 1
+    return st
+
+
+def oracle_sx(ctx, c, stats):
+    """SignedData.Verify(external, false): what is verified is the EXTERNAL content when one is given"""
+    if c.get("panic"):
+        ctx.violation("C16:panic:verify", "SignedData.Verify panicked: %s" % c["panic"], {"cases": [c]})
+        return None
+    x = bytes.fromhex(c["x"])
+    label = "%s content=%s attrs=%s embedded=%s external=%s" % (c["key"], c["shape"], c["attrs"], c["embedded"], c["external"])
+    st = strict_verify(x)
+    if c["parse"] or st is None:
+        stats["sx_undecided"] += 1
+        return None
+    stats["sx_decided"] += 1
+    r = regions(x)
+    embedded = r["econtent"]
+    ext = bytes.fromhex(c["ext"]) if c["ext_given"] else None
+    # ContentInfo.Bytes = the eContent octets, whatever they look like
+    want = "nil" if embedded is None else embedded.hex()
+    if c["content"] != want:
+        ctx.violation("C16:content:differs", "ContentInfo.Bytes is not the eContent octets (%d octets instead of %s) [%s]"
+                      % (len(c["content"]) // 2, "none" if embedded is None else len(embedded), label), {"cases": [c]})
+        return st
+    subject = ext if ext is not None else embedded
+    ok = subject is not None and (ext is None or embedded is None or ext == embedded) and st["hname"] and st["signer"]
+    if ok:
+        d = hashlib.new(st["hname"], subject).digest()
+        if st["field"] is not None:
+            ok = st["sig_ok"] and any(v == [tlv(0x04, d)] for (o, v) in st["attrs"] if o == OID_MD)
+        else:
+            a, b = sig_codes(st["signer"], st["hname"], d, st["lay"]["sig"])
+            ok = a == 0 or b == 0
+    accepted = c["sd_verify"] == "ok"
+    if accepted and not ok:
+        what = "the external content differs from the embedded copy" if (ext is not None and embedded is not None and ext != embedded) else \
+               "signature / message-digest do not cover the content that was handed in"
+        ctx.violation("C16:verify:external-content-ignored", "SignedData.Verify accepted although %s [%s]" % (what, label), {"cases": [c]})
+    elif ok and not accepted:
+        ctx.violation("C16:verify:rejects-valid", "SignedData.Verify refused a valid signature over the supplied content: %s [%s]" % (c["sd_verify"], label), {"cases": [c]})
+    if (c["expect"] == "accept") != bool(ok):
+        stats["sv_generator_expectation_differs"] += 1
+    return st
+
+
+def sx_val(c, st, skip):
+    hashtab, htab, sigtab, dflt = sv_tables(st)
+    if c["ext_given"] and st["hname"]:
+        e = bytes.fromhex(c["ext"])
+        d = hashlib.new(st["hname"], e).digest()
+        htab.append([HASH_IDS[st["hname"]], Hex(c["ext"]), Hex(d.hex())])
+        if st["signer"]:
+            a, b = sig_codes(st["signer"], st["hname"], d, st["lay"]["sig"])
+            sigtab.append([st["pubid"], Hex(d.hex()), a, b])
+    certs = [[Hex(i.hex()), Hex(s.hex()), n] for (i, s, n, _) in st["certs"]]
+    return [6, [Hex(c["x"]), 1 if c["ext_given"] else 0, Hex(c["ext"]), 1 if skip else 0, certs, 0, hashtab, htab, sigtab, dflt, dflt]]
+
+
+def sv_tables(st):
+    """digest and signature tables for the model: the candidate preimages are computed HERE from the emitted bytes"""
+    hname = st["hname"]
+    hashtab = [[Hex(o), HASH_IDS[n]] for o, n in HASH_OIDS.items()]
+    cands = [st["content"]]
+    if st["field"] is not None:
+        f = st["field"]
+        cands.append(b"\x31" + f[1:])
+        try:
+            enc = [st["si"][o:e] for (_, o, _, e) in kids(st["si"], st["lay"]["field_body"][0], st["lay"]["field_body"][1])]
+            cands.append(tlv(0x31, b"".join(sorted(enc))))
+            cands.append(tlv(0x31, b"".join(reversed(enc))))
+        except DerError:
+            pass
+        cands.append(f)
+    htab, sigtab, seen = [], [], set()
+    for pre in cands:
+        if pre in seen or not hname:
+            continue
+        seen.add(pre)
+        d = hashlib.new(hname, pre).digest()
+        htab.append([HASH_IDS[hname], Hex(pre.hex()), Hex(d.hex())])
+        if st["signer"]:
+            a, b = sig_codes(st["signer"], hname, d, st["lay"]["sig"])
+            sigtab.append([st["pubid"], Hex(d.hex()), a, b])
+    dflt = 1 if (st["signer"] and st["signer"][0] == "rsa") else 2
+    return hashtab, htab, sigtab, dflt
+
+
+def sv_val(c, st, skip):
+    hashtab, htab, sigtab, dflt = sv_tables(st)
+    certs = [[Hex(i.hex()), Hex(s.hex()), n] for (i, s, n, _) in st["certs"]]
+    return [4, [Hex(st["si"].hex()), 1, Hex(st["content"].hex()), 1 if skip else 0, certs, hashtab, htab, sigtab, dflt, dflt]]
+
+
+def tst_facts(content):
+    """[ok, imprint algorithm oid, parameters element, hashed message, time] of a TSTInfo"""
+    try:
+        t, s, e = read_one(content, 0, len(content))
+        k = kids(content, s, e)
+        mi = kids(content, k[2][2], k[2][3])
+        alg = kids(content, mi[0][2], mi[0][3])
+        params = content[alg[1][1]:alg[1][3]] if len(alg) > 1 else b""
+        return [1, Hex(content[alg[0][2]:alg[0][3]].hex()), Hex(params.hex()), Hex(content[mi[1][2]:mi[1][3]].hex()), 1]
+    except (DerError, IndexError):
+        return [0, Hex(""), Hex(""), Hex(""), -1]
+
+
+def ts_val(c, st):
+    hashtab, htab, sigtab, dflt = sv_tables(st)
+    data = bytes.fromhex(c["data"])
+    for n in HASH_IDS:
+        htab.append([HASH_IDS[n], Hex(c["data"]), Hex(hashlib.new(n, data).hexdigest())])
+    certs = [[Hex(i.hex()), Hex(s.hex()), n] for (i, s, n, _) in st["certs"]]
+    return [5, [Hex(c["x"]), Hex(c["data"]), [], tst_facts(st["content"]), certs, 0, hashtab, htab, sigtab, dflt, dflt]]
+
+
+def verdict_class(text):
+    """relic's verdict text -> error class of C16/VModel.v (7 and 8 are both 'the signature check failed')"""
+    if text == "ok":
+        return 0
+    for frag, cls in (("unsupported hash", 1), ("attribute not found", 2), ("expected one, found multiple", 3), ("content digest does not match", 4),
+                      ("verifying authenticated attributes", 5), ("certificate missing", 6), ("exactly one SignerInfo", 4),
+                      ("unpack TSTInfo", 10), ("pkcs9: digest check failed", 4), ("parsing timestamp", 12), ("missing content", 4),
+                      ("both provided but are not equal", 4), ("present but empty", 4), ("not signed", 16)):
+        if frag in text:
+            return cls
+    if text.startswith("asn1:"):
+        return 3
+    return 7
+
+
+def compare_sv(c, st, m_check, m_skip, m_ts):
+    d = []
+    for what, key, m in (("SignerInfo.Verify", "si_verify", m_check), ("SignerInfo.Verify(skipDigests)", "si_skip", m_skip), ("pkcs9.Verify", "ts_verify", m_ts)):
+        if m is None:
+            continue
+        want = verdict_class(c[key])
+        got = 7 if m[0] == 8 else m[0]
+        if got != want:
+            d.append(("verify", "%s: relic %r (class %d), model class %d" % (what, c[key], want, m[0])))
+    if m_check is not None:
+        if m_check[2] == 0:
+            d.append(("spec", "model AuthenticatedAttributesBytes differs from the RFC 5652 preimage of the emitted SignerInfo"))
+        if not m_check[3]:
+            d.append(("aab", "interpreted AuthenticatedAttributesBytes differs from Model.aab"))
+        if m_check[0] == 0 and m_check[1] != st["pubid"]:
+            d.append(("verify", "model found another certificate"))
+    return d
+
+
 # ------------------------------------------------------------------ model inputs
 def rt_val(c):
     return [0, Hex(c["x"])]
@@ -418,7 +869,9 @@ def compare_rt(c, m, stats):
 def new_stats():
     return dict.fromkeys(["rejected", "accepted_not_strict_der", "oracle_decided", "attr_preimages", "si_not_walkable", "external_ok",
                           "tokens_embedded", "outside_model_hightag", "crl_inner_rejected", "both_accept", "spec_defined",
-                          "econtent_not_der", "content_reported_absent_though_present", "token_reencoded_differs"], 0)
+                          "econtent_not_der", "content_reported_absent_though_present", "token_reencoded_differs",
+                          "sv_refused_at_parse", "sv_not_walkable", "sv_decided", "sv_valid", "sv_invalid", "sv_lax_duplicate_message_digest_accepted",
+                          "sv_generator_expectation_differs", "sv_model_compared", "sx_decided", "sx_undecided"], 0)
 
 
 def compare_builder(c, m, witnesses, stats):
@@ -496,7 +949,14 @@ def run(ctx, replay=None):
             ctx.violation("C16:driver-crash", "driver (c16tlv) failed: " + err2[-400:], {"stderr": err2[-2000:]}, False)
             out2 = ""
         small = [json.loads(l) for l in out2.splitlines() if l.strip()]
+        rc, out3, err3 = ctx.drv(["c16sv"], timeout=600)
+        if rc != 0:
+            ctx.violation("C16:driver-crash", "driver (c16sv) failed: " + err3[-400:], {"stderr": err3[-2000:]}, False)
+            out3 = ""
+        cases += [json.loads(l) for l in out3.splitlines() if l.strip()]
     rts = [c for c in cases if c.get("t") == "rt"]
+    svs = [c for c in cases if c.get("t") == "sv"]
+    sxs = [c for c in cases if c.get("t") == "sx"]
     bs = [c for c in cases if c.get("t") == "b"]
     stats = new_stats()
     # ---- 1. model-free oracle
@@ -515,6 +975,8 @@ def run(ctx, replay=None):
     witnesses = []
     for c in bs:
         witnesses += oracle_builder(ctx, c, stats)
+    sv_strict = [(c, oracle_sv(ctx, c, stats)) for c in svs]
+    sx_strict = [(c, oracle_sx(ctx, c, stats)) for c in sxs]
     found = any(v[2] for v in ctx.violations)
     # ---- 2. correspondence with the model
     evaluated, mism = 0, []
@@ -544,13 +1006,41 @@ def run(ctx, replay=None):
                 if d:
                     mism.append((c, d))
             evaluated += len(small)
+            # SignerInfo.Verify (digests checked / skipped) and pkcs9.Verify: the interpreted model over tables made here
+            svsel = [(c, st) for c, st in sv_strict if st is not None and not c["parse"] and not c.get("panic")]
+            vals = []
+            for c, st in svsel:
+                vals += [sv_val(c, st, False), sv_val(c, st, True), ts_val(c, st)]
+            resv = ctx.run_model(vals)
+            for i, (c, st) in enumerate(svsel):
+                d = compare_sv(c, st, resv[3 * i], resv[3 * i + 1], resv[3 * i + 2])
+                stats["sv_model_compared"] += 1
+                if d:
+                    mism.append((c, d))
+            evaluated += len(vals)
+            # SignedData.Verify with / without external content
+            sxsel = [(c, st) for c, st in sx_strict if st is not None]
+            valx = []
+            for c, st in sxsel:
+                valx += [sx_val(c, st, False), sx_val(c, st, True)]
+            resx = ctx.run_model(valx)
+            for i, (c, st) in enumerate(sxsel):
+                d = []
+                for what, key, m in (("SignedData.Verify", "sd_verify", resx[2 * i]), ("SignedData.Verify(skipDigests)", "sd_skip", resx[2 * i + 1])):
+                    want = verdict_class(c[key])
+                    got = 7 if m[0] == 8 else m[0]
+                    if got != want:
+                        d.append(("verify", "%s: relic %r (class %d), model class %d" % (what, c[key], want, m[0])))
+                if d:
+                    mism.append((c, d))
+            evaluated += len(valx)
         except RuntimeError as e:
             ctx.violation("C16:model-eval", str(e)[-300:], {"output": str(e)}, False)
     if mism and not found:
         c, d = mism[0]
         kinds = sorted(set(k for _, dd in mism for k, _ in dd))
-        ctx.violation("C16:correspondence", "model and implementation disagree on %d cases (%s); first: %s [%s %s]; no signed region changed" %
-                      (len(mism), ",".join(kinds), d[0][1], c.get("src", c.get("label", "")), c.get("mut", "")),
+        ctx.violation("C16:correspondence", "model and implementation disagree on %d cases (%s); first: %s [%s %s]; the model-free oracles found no failing input" %
+                      (len(mism), ",".join(kinds), d[0][1], c.get("src", c.get("label", c.get("layout", c.get("shape", "")))), c.get("mut", c.get("signed", c.get("external", "")))),
                       {"cases": [c], "diffs": d, "broken": "correspondence C16.Run.run"}, False)
     ctx.proof_verdict()
     kinds = {}
@@ -559,11 +1049,16 @@ def run(ctx, replay=None):
         kinds[k] = kinds.get(k, 0) + 1
     cov = ctx.proof_coverage(["srcgen translator (asn1 struct layouts and struct tags of lib/pkcs7, OIDs, constants and conditions of Unmarshal/marshalUnsortedSet/AuthenticatedAttributesBytes/appendAttr/NewContentInfo/Sign/Detach/AddStampTo*)",
                               "correspondence harness drv-c16 (real pkcs7.Unmarshal/Marshal/Detach/ContentInfo.Bytes/AuthenticatedAttributesBytes/SignatureBuilder, pkcs9.TimestampAndMarshal; OpenSSL 3 as sample source and, thorough tier, as external verifier)",
-                              "encoding/asn1 is modelled (tag/length reader, INTEGER, BIT STRING, SET OF sorting, RawContent/RawValue emission, optional/explicit handling); OID arc decoding and CRL tbsCertList fields are assumed, identifier octets with tag number >= 31 are outside the model"], fp)
+                              "encoding/asn1 is modelled (tag/length reader, INTEGER, BIT STRING, SET OF sorting, RawContent/RawValue emission, optional/explicit handling); OID arc decoding and CRL tbsCertList fields are assumed, identifier octets with tag number >= 31 are outside the model",
+                              "verification path: the models of SignerInfo.Verify, AuthenticatedAttributesBytes, AttributeList.Bytes, pkcs9.Verify, finishVerify, MessageImprint.Verify are the INTERPRETATION (C16/VModel.v) of the statement-level translation of the Go bodies (srcgen prog_*); digest, signature check, certificate parsing, TSTInfo decoding are parameters of the theorems; GetOne / FindCertificate loops are hand-modelled with generated conditions; SignedData.Verify's loop over signer infos and TimestampAndMarshal are exercised by the harness only"], fp)
     cov.update({
-        "evaluations": evaluated, "distinct_nontrivial": stats["oracle_decided"] + len([c for c in bs if c["in_domain"]]),
-        "rule": "OpenSSL-made SignedData (RSA/PSS/ECDSA, sha1..sha512, with/without attributes, 1-3 signers, chains, CRLs, detached, CAdES, receipt request), RFC 3161 tokens from two TSA configurations, relic-built and relic-stamped structures, BER and v3-signer samples that must be refused, structured mutants at every element boundary, an exhaustively mutated tiny SignedData, builder matrix; non-trivial = accepted by relic AND strict DER, so that the RFC 5652 region oracle decides it",
-        "samples": [dict((k, c[k]) for k in ("src", "mut", "err", "content_st")) for c in rts[:2]] + [dict((k, c[k]) for k in ("label", "key", "hash", "mode", "stamp")) for c in bs[:2]],
+        "evaluations": evaluated, "distinct_nontrivial": stats["oracle_decided"] + len([c for c in bs if c["in_domain"]]) + stats["sv_decided"] + stats["sx_decided"],
+        "rule": "OpenSSL-made SignedData (RSA/PSS/ECDSA, sha1..sha512, with/without attributes, 1-3 signers, chains, CRLs, detached, CAdES, receipt request), RFC 3161 tokens from two TSA configurations, relic-built and relic-stamped structures, BER and v3-signer samples that must be refused, structured mutants at every element boundary, an exhaustively mutated tiny SignedData, builder matrix; non-trivial = accepted by relic AND strict DER, so that the RFC 5652 region oracle decides it; "
+                "signed-bytes matrix (c16sv): RSA/ECDSA x sha256/sha1 x 15 layouts of the signed attributes (DER order, insertion order, reversed, duplicates, trailing junk, single, empty, "
+                "unsorted values, non-minimal and indefinite lengths, none) x up to 10 encodings the signature is over (as emitted, sorted DER, re-encoded, reversed, [0]-tagged, SEQUENCE-tagged, "
+                "content digest, with/without DigestInfo) x right/wrong message-digest, each through SignedData.Verify, SignerInfo.Verify (digests checked/skipped), pkcs9.Verify and TimestampAndMarshal",
+        "samples": [dict((k, c[k]) for k in ("src", "mut", "err", "content_st")) for c in rts[:2]] + [dict((k, c[k]) for k in ("label", "key", "hash", "mode", "stamp")) for c in bs[:2]]
+                   + [dict((k, c[k]) for k in ("key", "hash", "layout", "signed", "md", "expect", "si_verify", "tam")) for c in svs[:2]],
         "exhaustive": False, "input_distribution": kinds, "oracle_stats": stats, "model_mismatches": len(mism),
         "refuted_witnesses_reproduced_on_real_code": witnesses})
     return ctx.finish("proof", cov, ["SHA-1/SHA-2 and RSA/ECDSA are used as given (hashlib, crypto/rsa, crypto/ecdsa, OpenSSL)",
